@@ -5,7 +5,7 @@
 set -u
 P="$1"; ID="$2"; TIER="${3:-quick}"
 cd /repo || exit 2
-if ! git diff --quiet; then echo "/repo has uncommitted changes"; exit 2; fi
+if ! git diff --quiet || ! git diff --cached --quiet; then echo "/repo has uncommitted changes"; exit 2; fi
 if ! git apply --check "$P" 2>/dev/null; then
   if git apply --3way --check "$P" 2>/dev/null; then MODE=--3way; else echo "PATCH DOES NOT APPLY: $P"; exit 3; fi
 else MODE=""; fi
@@ -21,5 +21,5 @@ RC=$?
 grep -E "^VIOLATION|^KNOWN-FINDING|^INCONCLUSIVE|^  fingerprint|quick:|thorough:" /tmp/mt-check.log | cut -c1-220 | head -12
 echo "check exit=$RC"
 rm -rf $VERIF_ROOT
-git -C /repo checkout -- . && git -C /repo status --short | head -3
+git -C /repo reset -q --hard HEAD && git -C /repo status --short | head -3
 exit 0
